@@ -3070,6 +3070,8 @@ class LocalGitClient(GitClient):
                             ref_status[refname] = (
                                 f"unable to set {refname!r} to {new_sha1!r}"
                             )
+                        elif new_sha1 not in target.object_store:
+                            ref_status[refname] = "missing necessary objects"
                     else:
                         if current != old_sha1:
                             ref_status[refname] = "unable to remove"
@@ -3085,7 +3087,11 @@ class LocalGitClient(GitClient):
             for refname, new_sha1 in new_refs.items():
                 old_sha1 = old_refs.get(refname, ZERO_SHA)
                 if new_sha1 != ZERO_SHA:
-                    if not target.refs.set_if_equals(refname, old_sha1, new_sha1):
+                    if new_sha1 not in target.object_store:
+                        # Like receive-pack: never point a ref at an object
+                        # the target does not have.
+                        ref_status[refname] = "missing necessary objects"
+                    elif not target.refs.set_if_equals(refname, old_sha1, new_sha1):
                         msg = f"unable to set {refname!r} to {new_sha1!r}"
                         _progress(msg.encode())
                         ref_status[refname] = msg
